@@ -59,6 +59,11 @@ SCEN = {
     'UpgC': lambda inv=(): sc('MC_UpgC', 4, 5, inv),
     'ConnWinS': lambda inv=(): sc('MC_ConnWinS', 4, 6, inv),
     'ConnOutS': lambda inv=(): sc('MC_ConnOutS', 4, 5, inv),
+    # copies of the header scenarios under a non-default configuration
+    'HdrInSNoVal': lambda inv=(): sc('MC_HdrInSNoVal', 3, 4, inv),
+    'HdrInCPlain': lambda inv=(): sc('MC_HdrInCPlain', 3, 4, inv),
+    'HdrOutCNoNorm': lambda inv=(): sc('MC_HdrOutCNoNorm', 3, 4, inv),
+    'HdrOutSNoVal': lambda inv=(): sc('MC_HdrOutSNoVal', 3, 4, inv),
     'TableS': lambda inv=(): sc('MC_TableS', 4, 5, inv),
     'AltNoValC': lambda inv=(): sc('MC_AltNoValC', 4, 5, inv),
     'QuietS': lambda inv=(): sc('MC_QuietS', 4, 6, inv),
@@ -101,21 +106,21 @@ PROPS = {
                        'z.streams.iw', 'z.streams.mof'], S('call:set', 'frame:SET')), (['z.ls', 'z.rs'], ANY)]},
     'C12': {'scenarios': scen('SetS SetC CloseS PushS', ['P_C12_SettingsValidation']) + [sc('MC_SetEnumS', 2, 3, ['P_C12_SettingsValidation'])],
             'lens': [(['r', 'o', 'e', 'q.lw', 'q.rw', 'z.streams.ow', 'z.streams.iw', 'z.ow'], S('call:set', 'frame:SET'))]},
-    'C13': {'scenarios': scen('Pair1 HdrOutC HdrOutS PushS TableS', ['P_C13_CleanSendsDecode']),
+    'C13': {'scenarios': scen('Pair1 HdrOutC HdrOutS PushS TableS HdrOutCNoNorm', ['P_C13_CleanSendsDecode']),
             'lens': [(['o', 'r'], S('call:hdr', 'call:push')), (['r', 'e'], S('dlv')), (['z.hp'], ANY)]},
     'C14': {'scenarios': scen('HdrOutC HdrOutS Pair1', ['P_C14_EmittedBlocksConformant'])
             + [sc('MC_HdrEnumOutC', 2, 2, ['P_C14_EmittedBlocksConformant']), sc('MC_HdrEnumOutS', 2, 2, ['P_C14_EmittedBlocksConformant']),
                only('thorough', 'MC_HdrEnumOutC2', 2, ['P_C14_EmittedBlocksConformant']),
                only('thorough', 'MC_HdrEnumOutS2', 2, ['P_C14_EmittedBlocksConformant'])],
             'lens': [(['r', 'o'], S('call:hdr', 'call:push'))]},
-    'C15': {'scenarios': scen('HdrInS HdrInC', ['P_C15_DeliveredBlocksConformant'])
+    'C15': {'scenarios': scen('HdrInS HdrInC HdrInCPlain', ['P_C15_DeliveredBlocksConformant'])
             + [sc('MC_HdrEnumInS', 2, 2, ['P_C15_DeliveredBlocksConformant']), sc('MC_HdrEnumInC', 2, 2, ['P_C15_DeliveredBlocksConformant']),
                only('thorough', 'MC_HdrEnumInS2', 2, ['P_C15_DeliveredBlocksConformant']),
                only('thorough', 'MC_HdrEnumInC2', 2, ['P_C15_DeliveredBlocksConformant'])],
             'lens': [(['r', 'e', 'o'], S('frame:HEADERS', 'frame:PP'))]},
     'C16': {'scenarios': scen('LenC LenS LenC2', ['P_C16_ContentLength']),
             'lens': [(['r', 'e', 'o', 'z.streams.ecl', 'z.streams.acl', 'z.streams.meth'], S('frame:HEADERS', 'frame:DATA'))]},
-    'C17': {'scenarios': scen('CloseS HdrInS HdrInC LifeC RawS RawC', ['OnlyKnownExceptions'])
+    'C17': {'scenarios': scen('CloseS HdrInS HdrInC LifeC RawS RawC HdrInSNoVal HdrInCPlain', ['OnlyKnownExceptions'])
             + [sc('MC_HdrEnumInS', 2, 2, ['OnlyKnownExceptions']), sc('MC_HdrEnumInC', 2, 2, ['OnlyKnownExceptions'])],
             'lens': [(['r'], S('recv', 'dlv'))]},
     'C18': {'scenarios': scen('CloseS LifeS SetS HdrInS FrameS RawS RawC', ['P_C18_OneGoAwayWithCode', 'P_C18_SizeViolationsAreFrameSizeErrors']),
@@ -141,7 +146,7 @@ PROPS = {
             'lens': [(['z.streams', 'z.closed', 'z.pend', 'z.hb'], ANY), (['r', 'o'], S('frame:HEADERS', 'frame:PP', 'frame:CONT', 'frame:RAW'))]},
     'C28': {'scenarios': [dict(s, hashseeds=True) for s in scen('Pair1 SetS MiscC HdrInS HdrInC', [])],
             'lens': [(ALL_PUBLIC, ANY)]},
-    'C29': {'scenarios': scen('LifeS LifeC MiscC MiscS CloseS SetS FlowS BigC BigS UpgS PushS', GENERIC),
+    'C29': {'scenarios': scen('LifeS LifeC MiscC MiscS CloseS SetS FlowS BigC BigS UpgS PushS HdrOutSNoVal', GENERIC),
             'lens': [(['r', 'o'], S('call'))]},
 }
 
